@@ -12,6 +12,15 @@ structure DState where
   lvl : Level := Level.new 0
   g   : Nat := 0
   q   : Q := {}
+  /-- C19: the abstract FIFO run alongside, its answer to the last queue op, and whether a push
+      has re-used an id that still had a ticket since the last resynchronisation -/
+  -- C04: makers of the model's last match; pending deviations from the property's order
+  lastMakers : String := ""
+  c04F1 : Bool := false
+  c04F2 : Bool := false
+  fifo    : Fifo := []
+  specOut : String := ""
+  stale   : Bool := false
 
 def bad (s : DState) (line : String) : DState × String := (s, "bad-op " ++ line.trimAscii.toString)
 
@@ -84,17 +93,26 @@ def step (s : DState) (line : String) : DState × String :=
     | _, _ => bad s line
   | ["new", p] =>
     match p.toNat? with
-    | some p => ({ s with lvl := Level.new p, g := 0 }, "new")
+    | some p => ({ s with lvl := Level.new p, g := 0, c04F1 := false, c04F2 := false, lastMakers := "" }, "new")
     | none => bad s line
   | ["add", o] =>
     match parseOrder o with
-    | some o => ({ s with lvl := s.lvl.addOrder o }, "add ret=" ++ showOrder o)
+    | some o =>
+      -- joining at the back fails when the id still has a (stale) ticket in the queue
+      ({ s with lvl := s.lvl.addOrder o, c04F2 := s.c04F2 || s.lvl.tickets.contains o.id }, "add ret=" ++ showOrder o)
     | none => bad s line
   | ["match", q, taker] =>
     match q.toNat?, parseId taker with
     | some q, some t =>
       let (l, r, g) := s.lvl.matchOrder q t s.g
-      ({ s with lvl := l, g := g }, "match " ++ showMatch r)
+      let before := liveOrder s.lvl.map s.lvl.tickets
+      let after := liveOrder l.map l.tickets
+      let dev := !(C04.matchOrderOk before after)
+      -- a deviation is due to a leftover ticket when some surviving id had more than one ticket
+      let dup := (after.map (·.id)).any (fun i => (s.lvl.tickets.filter (· == i)).length > 1)
+      ({ s with lvl := l, g := g, lastMakers := showList (fun (t : Tx) => showId t.maker ++ ":" ++ toString t.qty) r.txs,
+                c04F1 := s.c04F1 || (dev && !dup), c04F2 := s.c04F2 || (dev && dup) },
+       "match " ++ showMatch r)
     | _, _ => bad s line
   | "upd" :: rest =>
     match parseUpdate rest with
@@ -102,6 +120,53 @@ def step (s : DState) (line : String) : DState × String :=
       let (l, out) := s.lvl.update u
       ({ s with lvl := l }, "upd " ++ showUpd out)
     | none => bad s line
+  | ["qnew"] => ({ s with q := {}, fifo := [], specOut := "qnew", stale := false }, "qnew")
+  | ["q.push", o] =>
+    match parseOrder o with
+    | some o =>
+      ({ s with q := s.q.push o, fifo := s.fifo.push o, specOut := "q.push",
+                stale := s.stale || s.q.tickets.contains o.id }, "q.push")
+    | none => bad s line
+  | ["q.fromvec", l] =>
+    match parseList parseOrder l with
+    | some os =>
+      let q := Q.fromVec os
+      ({ s with q := q, fifo := liveOrder q.map q.tickets, specOut := "q.fromvec", stale := false }, "q.fromvec")
+    | none => bad s line
+  | ["q.pop"] =>
+    let (o, q) := s.q.pop
+    let (so, f) := s.fifo.pop
+    ({ s with q := q, fifo := f, specOut := "q.pop " ++ showOptOrder so }, "q.pop " ++ showOptOrder o)
+  | ["q.find", id] =>
+    match parseId id with
+    | some id => ({ s with specOut := "q.find " ++ showOptOrder (s.fifo.find id) }, "q.find " ++ showOptOrder (s.q.find id))
+    | none => bad s line
+  | ["q.remove", id] =>
+    match parseId id with
+    | some id =>
+      let (o, q) := s.q.remove id
+      let (so, f) := s.fifo.remove id
+      ({ s with q := q, fifo := f, specOut := "q.remove " ++ showOptOrder so }, "q.remove " ++ showOptOrder o)
+    | none => bad s line
+  | ["q.len"] => ({ s with specOut := "q.len " ++ toString s.fifo.length }, "q.len " ++ toString s.q.len)
+  | ["q.isempty"] =>
+    ({ s with specOut := "q.isempty " ++ showBool s.fifo.isEmpty }, "q.isempty " ++ showBool s.q.isEmpty)
+  | ["q.tovec"] =>
+    ({ s with specOut := "q.tovec " ++ showList showOrder (canonSort s.fifo) },
+     "q.tovec " ++ showList showOrder (canonSort s.q.toVec))
+  | ["judge.C04", makers] =>
+    if makers != s.lastMakers then (s, "J C04 bad makers: got " ++ makers ++ " expected " ++ s.lastMakers)
+    else if s.c04F1 then ({ s with c04F1 := false, c04F2 := false }, "J C04 known F1")
+    else if s.c04F2 then ({ s with c04F2 := false }, "J C04 known F2")
+    else (s, "J C04 ok")
+  | "judge.C19" :: rest =>
+    let implOut := joinWith " " rest
+    if implOut == s.specOut then (s, "J C19 ok")
+    else if s.stale then
+      -- the known deviation: resynchronise the abstract queue with the real hand-out order
+      ({ s with fifo := liveOrder s.q.map s.q.tickets, stale := false },
+       "J C19 known stale-ticket")
+    else (s, "J C19 bad fifo-contract: got " ++ implOut ++ " expected " ++ s.specOut)
   | ["read", _] => (s, "read")
   | ["state"] => (s, "state " ++ showState s.lvl)
   | [""] => (s, "")
